@@ -64,6 +64,12 @@ inductive Expr where
   | bitor (a b : Expr)                    -- `a | b`
   | chain (e : Expr)                      -- `chain.from_iterable(e)`
   | star (e : Expr)                       -- `*e` in an argument list
+  | getattrSelf (name : String) (dflt : Expr)   -- `getattr(self, 'name', dflt)`
+  | selfAttr (name : String)              -- `self.name`
+  | attr (e : Expr) (name : String)       -- `e.name`
+  | isNone (e : Expr)                     -- `e is None`
+  | call0 (f : Expr)                      -- `f()`
+  | call3 (f a b c : Expr)                -- `f(a, b, c)`
   deriving Repr, DecidableEq
 
 inductive Stmt where
@@ -78,6 +84,9 @@ inductive Stmt where
   | super (i : Option Nat) (m : String) (args : List Expr)
   | notify (args : List Expr)                             -- `self.notify(...)`, callee's parameter order
   | ret (e : Expr)
+  | tryExcept (body : Stmt) (exc : Exc) (bind : Nat) (handler : Stmt)   -- try: body / except exc as x: handler
+  | setPrefix (i : Nat)                                   -- `x.set_prefix("…")` on a caught TraitError
+  | raiseVar (i : Nat)                                    -- `raise x`
   deriving Repr, DecidableEq
 
 /-- A translated method: positional parameters (after `self`), the default
@@ -344,6 +353,9 @@ def exec (C : Ctx K V) : Stmt → St K V → St K V × Flow K V
     match eval st.self st.vars e with
     | .ok v => (st, .returned v)
     | .error x => (st, .raised x)
+  | .tryExcept _ _ _ _, st => (st, .raised .other)
+  | .setPrefix _, st => (st, .raised .other)
+  | .raiseVar _, st => (st, .raised .other)
 
 /-- The builtin `dict` method `m` (what `super()` is for `TraitDict`): `Py.Dict.step`. -/
 def builtinSup (m : String) (args : List (Val K V)) (d : Dict K V) : Summary K V :=
@@ -668,6 +680,9 @@ def exec (C : Ctx α) : Stmt → St α → St α × Flow α
     match eval st.self st.vars e with
     | .ok v => (st, .returned v)
     | .error x => (st, .raised x)
+  | .tryExcept _ _ _ _, st => (st, .raised .other)
+  | .setPrefix _, st => (st, .raised .other)
+  | .raiseVar _, st => (st, .raised .other)
 
 /-- The builtin `set` method `m` (what `super()` is for `TraitSet`): `Py.PSet.step`.
 An in-place operator whose operand is not a set returns `NotImplemented` and
@@ -776,4 +791,143 @@ def summaryOfStep (s : PSet α) (op : Op α) : Except Exc (SOut α) → Summary 
   | .error e => .raised e s []
 
 end S
+
+/-! ## `TraitSetObject._validator` -/
+namespace V
+open TraitsVerif.Model.SetM
+
+variable {α : Type}
+
+/-- Run-time values of the validator method. -/
+inductive Val (α : Type) where
+  | none
+  | bool (b : Bool)
+  | item (x : α)
+  | ref (alive : Bool)                  -- what `self.object` holds: a weakref to the owner (alive or dead) or `lambda: None`
+  | owner                               -- the HasTraits owner
+  | trait (validateIsNone : Bool)       -- `self.trait` (a CTrait)
+  | itemTrait (validateIsNone : Bool)   -- `trait.item_trait`
+  | validateFn                          -- `trait.item_trait.validate`
+  | name                                -- `self.name`
+  | exc (e : Exc)                       -- a caught exception
+  deriving Repr
+
+abbrev Frame (α : Type) := List (Option (Val α))
+
+inductive Flow (α : Type) where
+  | next
+  | returned (v : Val α)
+  | raised (e : Exc)
+
+/-- The interpreter is run with the attributes of `self` that `_validator`
+reads (`TSOSelf`), the inner trait's `validate` as a function of "is there an
+owner", call ordinal and value, and the ordinal of this call. -/
+structure Ctx (α : Type) where
+  self : TSOSelf
+  inner : Bool → Callback α α
+  ordinal : Nat
+
+def truthy : Val α → Option Bool
+  | .none => some false
+  | .bool b => some b
+  | _ => Option.none
+
+def getVar (vars : Frame α) (i : Nat) : Except Exc (Val α) :=
+  match vars[i]? with
+  | some (some v) => .ok v
+  | _ => stuck
+
+def setVar (vars : Frame α) (i : Nat) (v : Val α) : Frame α := vars.set i (some v)
+
+def eval (C : Ctx α) (vars : Frame α) : Expr → Except Exc (Val α)
+  | .var i => getVar vars i
+  | .noneLit => .ok .none
+  | .boolLit b => .ok (.bool b)
+  | .getattrSelf n dflt =>
+    if n = "object" then
+      (match C.self.object with | some a => .ok (.ref a) | Option.none => eval C vars dflt)
+    else if n = "trait" then
+      (match C.self.trait with | some vn => .ok (.trait vn) | Option.none => eval C vars dflt)
+    else stuck
+  | .selfAttr n => if n = "name" then .ok .name else stuck
+  | .attr e n =>
+    match eval C vars e with
+    | .ok (.trait vn) => if n = "item_trait" then .ok (.itemTrait vn) else stuck
+    | .ok (.itemTrait vn) => if n = "validate" then .ok (if vn then .none else .validateFn) else stuck
+    | .ok _ => stuck
+    | .error e => .error e
+  | .isNone e =>
+    match eval C vars e with
+    | .ok .none => .ok (.bool true)
+    | .ok _ => .ok (.bool false)
+    | .error e => .error e
+  | .or a b =>
+    match eval C vars a with
+    | .ok v => (match truthy v with | some true => .ok v | some false => eval C vars b | none => stuck)
+    | .error e => .error e
+  | .call0 f =>
+    match eval C vars f with
+    | .ok (.ref alive) => .ok (if alive then .owner else .none)
+    | .ok _ => stuck
+    | .error e => .error e
+  | .call3 f a b c =>
+    match eval C vars f, eval C vars a, eval C vars b, eval C vars c with
+    | .ok .validateFn, .ok .owner, .ok .name, .ok (.item x) => (C.inner true C.ordinal x).map .item
+    | .ok .validateFn, .ok .none, .ok .name, .ok (.item x) => (C.inner false C.ordinal x).map .item
+    | .error e, _, _, _ => .error e
+    | _, .error e, _, _ => .error e
+    | _, _, .error e, _ => .error e
+    | _, _, _, .error e => .error e
+    | _, _, _, _ => stuck
+  | _ => stuck
+
+def exec (C : Ctx α) : Stmt → Frame α → Frame α × Flow α
+  | .skip, vars => (vars, .next)
+  | .seq a b, vars =>
+    match exec C a vars with
+    | (vars', .next) => exec C b vars'
+    | r => r
+  | .assign i e, vars =>
+    match eval C vars e with
+    | .ok v => (setVar vars i v, .next)
+    | .error x => (vars, .raised x)
+  | .ifS c t e, vars =>
+    match eval C vars c with
+    | .ok v =>
+      (match truthy v with
+       | some true => exec C t vars
+       | some false => exec C e vars
+       | none => (vars, .raised .other))
+    | .error x => (vars, .raised x)
+  | .ret e, vars =>
+    match eval C vars e with
+    | .ok v => (vars, .returned v)
+    | .error x => (vars, .raised x)
+  | .tryExcept body exc i handler, vars =>
+    match exec C body vars with
+    | (vars', .raised x) => if x = exc then exec C handler (setVar vars' i (.exc x)) else (vars', .raised x)
+    | r => r
+  | .setPrefix i, vars =>
+    match getVar vars i with
+    | .ok (.exc .traitError) => (vars, .next)          -- only TraitError has `set_prefix`; the message is not observed
+    | .ok _ => (vars, .raised .attributeError)
+    | .error x => (vars, .raised x)
+  | .raiseVar i, vars =>
+    match getVar vars i with
+    | .ok (.exc x) => (vars, .raised x)
+    | .ok _ => (vars, .raised .typeError)
+    | .error x => (vars, .raised x)
+  | _, vars => (vars, .raised .other)
+
+/-- `self._validator(x)` as the `n`-th validator call of an operation. -/
+def runValidator (fn : Func) (σ : TSOSelf) (inner : Bool → Callback α α) : Callback α α := fun n x =>
+  if fn.nparams ≠ 1 ∨ fn.vararg ∨ fn.nslots < 1 then stuck
+  else
+    match exec { self := σ, inner := inner, ordinal := n } fn.body
+        (some (.item x) :: List.replicate (fn.nslots - 1) Option.none) with
+    | (_, .returned (.item y)) => .ok y
+    | (_, .raised e) => .error e
+    | _ => stuck
+
+end V
 end TraitsVerif.Model.PyLM
